@@ -305,9 +305,13 @@ theorem newGen_inv {S r : Nat} (hS : S ≤ 61) (hr : 2 ≤ r) (hd : r ∣ 2 ^ S)
   rw [hsub]
   refine ⟨trivial, trivial, ⟨hmod, ?_, by omega, by omega, by unfold W; omega⟩, ?_, ?_⟩
   · rw [sub_mod_self (by omega)]; exact hmod
-  · simp only [Bool.not_eq_true', decide_eq_false_iff_not, not_lt]
+  · have : r ≠ 0 := by omega
+    simp only [Bool.and_eq_true, Bool.not_eq_true', decide_eq_false_iff_not, not_lt, this,
+      not_false_eq_true, and_true]
     unfold W; omega
-  · simp only [Bool.not_eq_true', decide_eq_false_iff_not, not_lt]
+  · have : r ≠ 0 := by omega
+    simp only [Bool.and_eq_true, Bool.not_eq_true', decide_eq_false_iff_not, not_lt, this,
+      not_false_eq_true, and_true]
     omega
 
 /-- primes generated for one size -/
@@ -504,56 +508,61 @@ theorem checkModuliLogSize_none {logQ logP : List Int} (h : checkModuliLogSize l
         simp [MaxModuliSize] at this
         omega
 
-/-- **genModuli_spec** — when `GenModuli(LogNthRoot, logQ, logP)` returns moduli, then (given that the
-    two float tests are exact, `StopSound`, and that no requested size is below the root order)
-    every modulus is `1 mod 2^LogNthRoot`, accepted by the primality oracle, within half a bit of
-    its requested size, in request order, and all moduli of `q ++ p` are pairwise distinct. -/
+theorem checkSizesAboveRoot_none {l : Int} {logQ logP : List Int}
+    (h : checkSizesAboveRoot l logQ logP = none) : ∀ s ∈ logQ ++ logP, l ≤ s := by
+  unfold checkSizesAboveRoot at h
+  split at h
+  · cases h
+  · rename_i h1
+    split at h
+    · cases h
+    · rename_i h2
+      intro s hs
+      rcases List.mem_append.mp hs with hs | hs
+      · have := firstIdx_none' _ _ _ h1 s hs
+        simp at this
+        exact this
+      · have := firstIdx_none' _ _ _ h2 s hs
+        simp at this
+        exact this
+
+/-- **genModuli_spec** — when `GenModuli(LogNthRoot, logQ, logP)` returns moduli then (given that the
+    two float tests are exact, `StopSound`) `5 ≤ LogNthRoot ≤ 22`, every modulus is `1 mod 2^LogNthRoot`,
+    accepted by the primality oracle, within half a bit of its requested size, in request order, and
+    all moduli of `q ++ p` are pairwise distinct. The size precondition (no size below the root
+    order) is enforced by the code. -/
 theorem genModuli_ok (o : Oracle) (hs : StopSound o) (fuel : Nat) (L : Int) (logQ logP : List Int)
-    (q p : List Nat) (hL : 1 ≤ L) (hroot : ∀ s ∈ logQ ++ logP, L ≤ s)
-    (h : genModuli o fuel L logQ logP = .ok (q, p)) :
+    (q p : List Nat) (h : genModuli o fuel L logQ logP = .ok (q, p)) :
+    5 ≤ L ∧ L ≤ 22 ∧
     List.Forall₂ (fun s x => Good o s.toNat (2 ^ L.toNat) x) logQ q ∧
     List.Forall₂ (fun s x => Good o s.toNat (2 ^ L.toNat) x) logP p ∧
     (q ++ p).Nodup := by
   unfold genModuli at h
-  have hts : checkSizeParams testParamsLogN = none := by decide
-  rw [hts] at h
-  simp only at h
   split at h
   · cases h
-  · rename_i hsz
-    obtain ⟨szQ, szP⟩ := checkModuliLogSize_none hsz
+  · rename_i hrange
+    simp [MinLogN, MaxLogN] at hrange
+    have hnlt := of_decide_eq_false hrange.1
+    have hL5 : 5 ≤ L := by omega
+    have hL22 : L ≤ 22 := by omega
     split at h
-    · -- nothing requested
-      rename_i hemp
-      simp only [Res.ok.injEq, Prod.mk.injEq] at h
-      obtain ⟨rfl, rfl⟩ := h
-      have : logQ = [] ∧ logP = [] := by
-        simpa [List.isEmpty_iff] using hemp
-      obtain ⟨rfl, rfl⟩ := this
-      simp
-    · split at h
+    · cases h
+    · rename_i hsz
+      obtain ⟨szQ, szP⟩ := checkModuliLogSize_none hsz
+      split at h
       · cases h
-      · rename_i hne hLneg
+      · rename_i habove
+        have hroot := checkSizesAboveRoot_none habove
+        dsimp only at h
         split at h
         · rename_i tbl hgen
           simp only [Res.ok.injEq, Prod.mk.injEq] at h
           obtain ⟨hq, hp⟩ := h
-          -- the root order
           have hsz61 : ∀ s ∈ logQ ++ logP, 0 < s ∧ s ≤ 61 := by
             intro s hs
             rcases List.mem_append.mp hs with hs | hs
             · have := szQ s hs; omega
             · exact szP s hs
-          have hL61 : L ≤ 61 := by
-            have : (logQ ++ logP) ≠ [] := by
-              intro he
-              apply hne
-              have : logQ = [] ∧ logP = [] := by simpa using he
-              simp [this.1, this.2]
-            obtain ⟨s, hs⟩ := List.exists_mem_of_ne_nil _ this
-            have := hroot s hs; have := (hsz61 s hs).2; omega
-          have hnth : u64shl 1 L.toNat = 2 ^ L.toNat := u64shl_one (by omega)
-          rw [hnth] at hgen
           have hr2 : 2 ≤ 2 ^ L.toNat := by
             have : 2 ^ 1 ≤ 2 ^ L.toNat := Nat.pow_le_pow_right (by decide) (by omega)
             simpa using this
@@ -570,14 +579,12 @@ theorem genModuli_ok (o : Oracle) (hs : StopSound o) (fuel : Nat) (L : Int) (log
             (List.map Int.toNat logQ ++ List.map Int.toNat logP) []
             (fun s hs => by rw [t1]; exact List.mem_eraseDups.mpr hs)
             (fun s => by simp)
-          have hlen := a1.length_eq
-          constructor
+          refine ⟨hL5, hL22, ?_, ?_, ?_⟩
           · rw [← hq]
             have := List.forall₂_take (List.map Int.toNat logQ).length a1
             rw [List.take_left'] at this
             · exact (List.forall₂_map_left_iff).mp this
             · rfl
-          constructor
           · rw [← hp]
             have := List.forall₂_drop (List.map Int.toNat logQ).length a1
             rw [List.drop_left'] at this
